@@ -8,6 +8,7 @@ import (
 	sdkmath "cosmossdk.io/math"
 	"github.com/cosmos/cosmos-sdk/store/prefix"
 	sdk "github.com/cosmos/cosmos-sdk/types"
+	errortypes "github.com/cosmos/cosmos-sdk/types/errors"
 	vestexported "github.com/cosmos/cosmos-sdk/x/auth/vesting/exported"
 	"github.com/ethereum/go-ethereum/common"
 
@@ -90,6 +91,13 @@ func (k *Keeper) SetBalance(ctx sdk.Context, addr common.Address, amount *big.In
 		}
 	case -1:
 		// burn
+		// Nobody holds the key of a blocked (module or precompile) address, so the EVM can never
+		// legitimately lower its balance: a negative delta means the cached state object is stale
+		// (the bank balance was raised behind the StateDB's back, e.g. by a precompile). Refuse to
+		// "reconcile" it, as the mint branch already does through SendCoinsFromModuleToAccount.
+		if k.bankKeeper.BlockedAddr(cosmosAddr) {
+			return errorsmod.Wrapf(errortypes.ErrUnauthorized, "cannot burn from blocked address %s", cosmosAddr)
+		}
 		coins := sdk.NewCoins(sdk.NewCoin(params.EvmDenom, sdkmath.NewIntFromBigInt(new(big.Int).Neg(delta))))
 		if err := k.bankKeeper.SendCoinsFromAccountToModule(ctx, cosmosAddr, types.ModuleName, coins); err != nil {
 			return err
